@@ -117,7 +117,7 @@ def fn_filters(nwit=20):
     if out_viol:
         out.update(status="violation", violations=out_viol, detail="; ".join(v["detail"] for v in out_viol[:3]))
     else:
-        out.update(status="discharged", detail="isrequestsecure == {no './', '..', '//', '.\\\\', '\\\\\\\\', NUL}; HTMLURLHandler filter == ^(/|)URL:.+:// without NUL/LF/TAB/CR/quote; "
+        out.update(status="discharged", detail="isrequestsecure == {no './', '..', '//', '.\\\\', '\\\\\\\\', NUL, no trailing '/.'}; HTMLURLHandler filter == ^(/|)URL:.+:// without NUL/LF/TAB/CR/quote; "
                    "no other handler overrides isrequestsecure/isrequestforme; accepted language has no '..' component and no NUL (any length)")
     return out
 
@@ -599,6 +599,11 @@ def obligations(tier, seed):
            desc="no handler module calls a percent-decoder", bounds="all files under pygopherd/handlers"),
         Ob(id="C01.3-fspath", body="harness.C01:body_fspath", sig="root: str, sel: str", pre=["1 <= len(root) <= 3", "len(sel) <= 5", "len(sel) >= 1"], timeout=90,
            desc="VFS_Real.getfspath(sel) is literally root + sel minus one trailing slash", bounds="|root| <= 3, 1 <= |sel| <= 5",
+           functions=["pygopherd.handlers.base.VFS_Real.getfspath"]),
+        Ob(id="C01.3b-fspath-lookalikes", body="harness.C01:body_fspath", sig="root: str, sel: str",
+           pre=["root == '/r'", "1 <= len(sel) <= 3", "all(c in '/.aA' + chr(0x2025) + chr(0x2024) + chr(0xff0e) + chr(0xff0f) + chr(0x2215) + chr(0xe9) + chr(0x301) + chr(0xdcff) + chr(92) for c in sel)"], timeout=300,
+           desc="VFS_Real.getfspath(sel) is literally root + sel for selectors over separator/dot look-alikes (U+2025 two-dot leader, U+2024, fullwidth stop and solidus, division slash), case variants, combining and surrogate-escaped characters: no normalisation, folding or re-encoding between the security filter and the OS path",
+           bounds="1 <= |sel| <= 3 over 13 characters (separators, dots, their Unicode compatibility look-alikes, case, combining mark, lone surrogate)",
            functions=["pygopherd.handlers.base.VFS_Real.getfspath"]),
         Ob(id="C01.5-gethandler", body="harness.C01:body_gethandler", sig="sel: str, answers: list[bool]", pre=["len(sel) <= 3", "len(answers) <= 4"], timeout=120,
            desc="real getHandler: first accepting handler, FileNotFound otherwise, any stat failure (incl. ValueError for NUL) is absorbed",
